@@ -216,6 +216,7 @@ func randomScript(seed int64, idx int, scratch string) Script {
 	}
 	og := ocicheck.NewOpGen(rng, nodes, 2+rng.IntN(3), sc.AutoSave)
 	og.AllowBadOp = false
+	og.NoOctet = true // the continuation after a crash does not know about pinned names
 	og.Weights["pushbad"] = 0
 	if !sc.AutoSave {
 		// index.json is stale by contract until SaveIndex: no removals
